@@ -101,6 +101,9 @@ fn resources_calls(o: &mut Obs, tag: &str, res: &Resources, r: &impl Resolve, de
     for (name, p) in res.pattern.iter().take(10) { o.rec(&format!("{}.pattern[{}].get", tag, name.as_str()), guarded(|| r.get(*p).map(|_| ()))); }
 }
 
+/// typed loads (model name of the registry, object number) that `exercise` performs in addition; set per case by the runner
+pub static TYPED: std::sync::Mutex<Vec<(String, u64)>> = std::sync::Mutex::new(Vec::new());
+
 /// every read entry point; `with_scan` also runs the recovery scan
 pub fn exercise(bytes: &[u8], tolerant: bool, cached: bool, password: &[u8]) -> Obs {
     let mut o = Obs { calls: Vec::new() };
@@ -163,6 +166,17 @@ pub fn exercise(bytes: &[u8], tolerant: bool, cached: bool, password: &[u8]) -> 
                     o.rec("stream.data", guarded(|| Stream::<()>::from_stream(s.clone(), &r).and_then(|st| st.data(&r)).map(|d| d.len())));
                 }
             }
+        }
+        // typed loads by model name, asked for by the case: once as a direct entry (the reference is handed to the
+        // decoder) and once the way `get` does it (the resolved value is handed to the decoder)
+        let typed: Vec<(String, u64)> = TYPED.lock().map(|t| t.clone()).unwrap_or_default();
+        for (model, id) in typed {
+            let pr = PlainRef { id, gen: 0 };
+            o.rec(&format!("typed[{}].direct", model), guarded(|| crate::registry::load(&model, Primitive::Reference(pr), &r).unwrap_or(Ok(()))));
+            o.rec(&format!("typed[{}].resolved", model), guarded(|| {
+                let p = r.resolve(pr)?;
+                crate::registry::load(&model, p, &r).unwrap_or(Ok(()))
+            }));
         }
         o.rec_plain("scan", guarded(|| f.scan().take(5000).map(|it| match it { Ok(ScanItem::Object(..)) => 1, Ok(ScanItem::Trailer(_)) => 2, Err(_) => 0 }).sum::<usize>()));
     }}}
